@@ -432,7 +432,13 @@ class ScanProgress:
             if isinstance(n, ast.Assign) and len(n.targets) == 1 and isinstance(n.targets[0], ast.Tuple):
                 names = [ast.unparse(e) for e in n.targets[0].elts]
                 if len(names) >= 2 and names[1] == "span_end":
-                    return ast.unparse(n.value) == "fence_spans[fence_span_idx]"
+                    v = n.value
+                    if isinstance(v, ast.Name):
+                        # a local bound once to the span (e.g. the argument of an inlined helper)
+                        ds = [a.value for a in walk_no_nested(self.fi.node) if isinstance(a, ast.Assign) and len(a.targets) == 1 and isinstance(a.targets[0], ast.Name) and a.targets[0].id == v.id]
+                        if len(ds) == 1:
+                            v = ds[0]
+                    return ast.unparse(v) == "fence_spans[fence_span_idx]"
         return False
 
     # -- path search ------------------------------------------------------------------------------
@@ -579,6 +585,38 @@ def _fresh_name_loop(loop: ast.While) -> str | None:
     return f"`{v}` is rebuilt from the strictly increasing counter `{counters[0]}` on every cycle, so candidates are pairwise distinct and the finite set `{coll}` (not modified in the loop) cannot contain them all"
 
 
+def _find_next_loop(loop: ast.While, cfg: CFG | None = None) -> str | None:
+    """`p = s.find(x[, ...]); while p != -1: ...; p = s.find(x, p + k)` with k >= 1: every cycle either leaves the loop or
+    restarts the search strictly to the right of the previous hit, so the hits are strictly increasing positions of a finite
+    string (s is not rebound in the loop); -1 ends it."""
+    t = loop.test
+    v = None
+    if isinstance(t, ast.Compare) and len(t.ops) == 1 and isinstance(t.left, ast.Name):
+        r = t.comparators[0]
+        neg1 = isinstance(r, ast.UnaryOp) and isinstance(r.op, ast.USub) and isinstance(r.operand, ast.Constant) and r.operand.value == 1
+        zero = isinstance(r, ast.Constant) and r.value == 0
+        if (isinstance(t.ops[0], ast.NotEq) and neg1) or (isinstance(t.ops[0], ast.GtE) and zero) or (isinstance(t.ops[0], ast.Gt) and neg1):
+            v = t.left.id
+    if v is None:
+        return None
+    writes = [n for st in loop.body for n in ast.walk(st) if isinstance(n, (ast.Assign, ast.AugAssign, ast.AnnAssign)) and any(isinstance(x, ast.Name) and x.id == v and isinstance(x.ctx, ast.Store) for x in ast.walk(n))]
+    if len(writes) != 1 or not isinstance(writes[0], ast.Assign) or writes[0] not in loop.body:
+        return None  # exactly one, unconditional, at the top level of the body
+    c = writes[0].value
+    if not (isinstance(c, ast.Call) and isinstance(c.func, ast.Attribute) and c.func.attr in ("find", "index") and isinstance(c.func.value, ast.Name) and len(c.args) >= 2):
+        return None
+    s_name = c.func.value.id
+    start = c.args[1]
+    fwd = isinstance(start, ast.BinOp) and isinstance(start.op, ast.Add) and ((isinstance(start.left, ast.Name) and start.left.id == v and isinstance(start.right, ast.Constant) and isinstance(start.right.value, int) and start.right.value >= 1) or (isinstance(start.right, ast.Name) and start.right.id == v and isinstance(start.left, ast.Constant) and isinstance(start.left.value, int) and start.left.value >= 1))
+    if not fwd:
+        return None
+    if any(isinstance(x, ast.Name) and x.id == s_name and isinstance(x.ctx, ast.Store) for st in loop.body for x in ast.walk(st)):
+        return None
+    if any(isinstance(x, ast.Continue) for st in loop.body for x in ast.walk(st) if not isinstance(x, (ast.For, ast.While))) and any(isinstance(x, ast.Continue) for st in loop.body[:loop.body.index(writes[0])] for x in ast.walk(st)):
+        return None  # a `continue` before the re-search would repeat the same hit
+    return f"`{v}` is the next hit of `{s_name}.{c.func.attr}(..., {v} + k)` (k >= 1): strictly increasing positions in a finite string that the loop does not rebind, ended by -1"
+
+
 def check_other_loops(run: Run, pmodel: ParserModel) -> None:
     run.rule("R20.1b", "every while loop outside tokenize's main loop and the Parser's token loops has a recognised termination argument (monotone bounded counter, shrinking string, streaming read, fresh-name search); no for loop appends to the collection it iterates", 8)
     parser_cls = pmodel.cls
@@ -612,7 +650,7 @@ def check_other_loops(run: Run, pmodel: ParserModel) -> None:
                     continue  # R20.1
                 ok, why = counter_loop_ok(cfg, head.id)
                 if not ok:
-                    for rec in (_shrinking_string_loop, _stream_loop, _fresh_name_loop):
+                    for rec in (_shrinking_string_loop, _stream_loop, _fresh_name_loop, _find_next_loop):
                         w = rec(loop)
                         if w:
                             ok, why = True, w
